@@ -1,11 +1,11 @@
 (* C16 — Replies depend on the bytes sent, not on packetisation; bad input is contained.
    Only the property theorems, each closed by a lemma of Proofs/. *)
-From T38 Require Import Base.Bytes Model.Resp Model.Pipeline Proofs.RespProofs Proofs.PipelineProofs.
+From T38 Require Import Base.Bytes Model.Resp Model.Pipeline Proofs.RespProofs Proofs.PanicProofs Proofs.PipelineProofs.
 Local Open Scope Z_scope.
 
-(* redcon.ReadNextCommand (RESP, native "$", telnet): a command found in d is the command found in
-   d ++ e, with the leftover extended by e; an error found in d is the same error in d ++ e.
-   (An Incomplete result puts no constraint: more bytes are awaited.) *)
+(* redcon.ReadNextCommand (RESP, native $, telnet): a command found in d is the command found in
+   d ++ e, with the leftover extended by e; an error found in d is the same error in d ++ e; a run-time
+   panic on d is a panic on d ++ e (buffers shorter than 2^62).  Incomplete puts no constraint. *)
 Theorem c16_complete_stable : forall d e a k r,
   read_next d = Complete a k r -> read_next (d ++ e) = Complete a k (r ++ e).
 Proof. exact read_next_complete_stable. Qed.
@@ -15,36 +15,45 @@ Theorem c16_err_stable : forall d e x, read_next d = Err x -> read_next (d ++ e)
 Proof. exact read_next_err_stable. Qed.
 Print Assumptions c16_err_stable.
 
-(* the tile38-level entry point readNextCommand (HTTP sniff on G/P/O + redcon), for any HTTP
-   request parser that is itself stable (hypothesis; exercised black-box by the harness) *)
-Theorem c16_cmd_stable : forall http,
-  (forall d e, cext e (http d) (http (d ++ e))) ->
-  forall d e, cext e (read_cmd http d) (read_cmd http (d ++ e)).
-Proof. exact read_cmd_stable. Qed.
+Theorem c16_panic_stable : forall d e, len (d ++ e) < BIG -> read_next d = Panic -> read_next (d ++ e) = Panic.
+Proof. exact read_next_panic_stable. Qed.
+Print Assumptions c16_panic_stable.
+
+(* the tile38-level entry point readNextCommand: HTTP sniff on G/P/O, the modelled readNextHTTPCommand
+   (request line, headers up to Content-Length / Authorization / websocket upgrade, body), else redcon.
+   No hypothesis about the HTTP parser is left. *)
+Theorem c16_cmd_stable : forall d e, cext e (t38_parse d) (t38_parse (d ++ e)).
+Proof. exact t38_parse_stable. Qed.
 Print Assumptions c16_cmd_stable.
 
-(* The carry-over step of ReadMessages is exact: parsing d ++ e in one go gives the messages of d
-   followed by what parsing (leftover of d) ++ e gives, with the same leftover and the same error
-   point — for every 2-way cut of every stream.  PARTIAL with respect to the planned c16_chunking:
-   stated per cut (the induction over k chunks and the sufficiency of ReadMessages' own fuel,
-   i.e. progress of every Complete, are not mechanised), and for buffers on which the pinned
-   parser does not panic. *)
-Theorem c16_chunking_partial : forall http,
-  (forall d e, cext e (http d) (http (d ++ e))) ->
-  forall e f d ms b f2,
-  rm_loop (read_cmd http) f d = RM ms b None ->
-  rm_loop (read_cmd http) f2 (b ++ e) <> RMFuel ->
-  rm_loop (read_cmd http) (f + f2) (d ++ e) = prepend ms (rm_loop (read_cmd http) f2 (b ++ e)).
-Proof. intros http H. exact (rm_loop_app (read_cmd http) (read_cmd_stable http H)). Qed.
-Print Assumptions c16_chunking_partial.
+(* every Complete consumes at least one byte and the parser never runs out of its fuel: ReadMessages'
+   loop terminates within its own fuel *)
+Theorem c16_progress : forall d,
+  match t38_parse d with CComplete _ _ rest => len rest < len d | CFuel => False | _ => True end.
+Proof. exact t38_parse_good. Qed.
+Print Assumptions c16_progress.
 
-Theorem c16_error_point_stable : forall http,
-  (forall d e, cext e (http d) (http (d ++ e))) ->
-  forall e f d ms b x,
-  rm_loop (read_cmd http) f d = RM ms b (Some x) ->
-  rm_loop (read_cmd http) f (d ++ e) = RM ms (b ++ e) (Some x).
-Proof. intros http H. exact (rm_loop_err (read_cmd http) (read_cmd_stable http H)). Qed.
-Print Assumptions c16_error_point_stable.
+(* k-way chunking, pinned entry point: feeding ANY segmentation of a stream through the ReadMessages
+   accumulation (one call per chunk, leftover carried over, stop at the first error) yields the same
+   connection outcome — same messages in the same order, same error point, same leftover — as feeding
+   the stream in one piece; for every stream no prefix of which makes the pinned parser panic (F6) or hits
+   the `return nil, errInvalidHTTP` early exit of ReadMessages (an HTTP request with an empty path). *)
+Theorem c16_chunking : forall chunks,
+  (forall k, rm_all t38_parse (firstn k (concat chunks)) <> RMPanic) ->
+  (forall k, rm_all t38_parse (firstn k (concat chunks)) <> RMAbort) ->
+  conn_run t38_parse chunks [] [] = conn_run t38_parse [concat chunks] [] [].
+Proof. exact t38_chunking. Qed.
+Print Assumptions c16_chunking.
+
+(* the same for the REPAIRED entry point (recover around readNextCommand): the panic hypothesis is gone —
+   a malformed frame is reported as the same protocol error after the same messages whatever the
+   segmentation; streams shorter than 2^62 bytes. *)
+Theorem c16_chunking_fixed : forall chunks,
+  len (concat chunks) < BIG ->
+  (forall k, rm_all t38_parse_fixed (firstn k (concat chunks)) <> RMAbort) ->
+  conn_run t38_parse_fixed chunks [] [] = conn_run t38_parse_fixed [concat chunks] [] [].
+Proof. exact t38_fixed_chunking. Qed.
+Print Assumptions c16_chunking_fixed.
 
 (* F6: on the pinned code "never panics" is false — a negative bulk length indexes / slices out of
    range in redcon, and nothing recovers on the connection goroutine. *)
@@ -55,19 +64,30 @@ Theorem c16_no_panic_refuted :
 Proof. exact pinned_parser_panics. Qed.
 Print Assumptions c16_no_panic_refuted.
 
-(* With the proposed repair (proposed_fixes/C16-parser-panic: recover around the framing parser,
-   the panic becomes a protocol error that closes only that connection) no input crashes the reader. *)
-Theorem c16_no_panic : forall http chunks buf acc,
-  conn_run (read_cmd_fixed http) chunks buf acc <> Crashed.
-Proof. intros http. exact (conn_run_no_crash (read_cmd_fixed http) (read_cmd_fixed_no_panic http)). Qed.
+(* With the repair no byte string makes the tile38-level entry point panic — RESP, native, telnet and
+   HTTP paths alike (the panics of redcon and of readNativeMessageLine are the outcome the recover
+   produces, CErr EPanicRecovered) — and no chunk sequence crashes the connection reader. *)
+Theorem c16_no_panic : (forall d, t38_parse_fixed d <> CPanic) /\
+  (forall chunks buf acc, conn_run t38_parse_fixed chunks buf acc <> Crashed).
+Proof. split; [exact t38_fixed_no_panic|exact (conn_run_no_crash t38_parse_fixed t38_fixed_no_panic)]. Qed.
 Print Assumptions c16_no_panic.
 
-(* non-vacuity: a pipeline of two commands cut inside the second one *)
+(* the crash inputs of the pinned build, through the repaired entry point: a protocol error *)
+Example c16_recovered_inputs :
+  t38_parse_fixed [42; 49; 13; 10; 36; 45; 50; 13; 10]%N = CErr EPanicRecovered /\                       (* *1\r\n$-2\r\n *)
+  t38_parse_fixed [36;49;55;32;83;69;84;32;107;32;105;100;32;83;84;82;73;78;71;32;34;13;10]%N = CErr EPanicRecovered /\  (* $17 SET k id STRING <one double quote> *)
+  t38_parse_fixed [71;69;84;32;47;83;69;84;43;107;43;105;100;43;83;84;82;73;78;71;43;34;32;72;84;84;80;47;49;46;49;13;10;13;10]%N
+    = CErr EPanicRecovered.                                                                               (* GET /SET+k+id+STRING+<one double quote> HTTP/1.1 *)
+Proof. vm_compute. repeat split; reflexivity. Qed.
+
+(* non-vacuity: a pipeline of two commands and a malformed frame, cut in three different ways *)
 Example c16_nonvacuous :
-  let http := fun _ : bytes => CErr (EHttp 0) in
-  let d := [42; 49; 13; 10; 36; 49; 13; 10; 97; 13; 10; 42; 49; 13]%N in
-  let e := [10; 36; 49; 13; 10; 98; 13; 10]%N in
-  rm_loop (read_cmd http) 20 d = RM [{| m_args := [[97%N]]; m_kind := KRedis |}] [42; 49; 13]%N None /\
-  rm_loop (read_cmd http) 40 (d ++ e) =
-    RM [{| m_args := [[97%N]]; m_kind := KRedis |}; {| m_args := [[98%N]]; m_kind := KRedis |}] [] None.
-Proof. vm_compute. split; reflexivity. Qed.
+  let s1 := [42; 49; 13; 10; 36; 49; 13; 10; 97; 13; 10; 42; 49; 13]%N in
+  let s2 := [10; 36; 49; 13; 10; 98; 13; 10; 42; 49; 13; 10; 36; 45]%N in
+  let s3 := [50; 13; 10]%N in
+  let whole := conn_run t38_parse_fixed [s1 ++ s2 ++ s3] [] [] in
+  whole = Closed [{| m_args := [[97%N]]; m_kind := KRedis |}; {| m_args := [[98%N]]; m_kind := KRedis |}] EPanicRecovered /\
+  conn_run t38_parse_fixed [s1; s2; s3] [] [] = whole /\
+  conn_run t38_parse_fixed [s1 ++ s2; s3] [] [] = whole /\
+  conn_run t38_parse [s1; s2] [] [] = conn_run t38_parse [s1 ++ s2] [] [].
+Proof. vm_compute. repeat split; reflexivity. Qed.
